@@ -274,6 +274,7 @@ type execRun struct {
 	ctxBad            int
 	elemOrd           [64]int // started element calls per collection
 	nextEm            int
+	nextProbe         int
 	sharedErr         *userErr
 	propErr           [64]error // per task: the annotated error of the directive nested in it, if that failed
 	lastErr           error     // what the directive returned (set when the call returns, before the harness's bookkeeping step)
@@ -722,6 +723,29 @@ func (h *hh) Probe(k int) {
 		return
 	}
 	x.log(EvProbe, k, 0, nil, 0, 0)
+}
+
+func (h *hh) ProbeNext() {
+	x := h.x
+	n := x.takeNextProbe()
+	id := -1
+	for k, p := range x.prog.Probes {
+		if p.Next {
+			if n == 0 {
+				id = k
+				break
+			}
+			n--
+		}
+	}
+	h.Probe(id)
+}
+
+//go:norace
+func (x *execRun) takeNextProbe() int {
+	n := x.nextProbe
+	x.nextProbe++
+	return n
 }
 
 func (h *hh) Ident(k int, ok bool) { h.x.noteIdent(k, ok) }
